@@ -204,6 +204,7 @@ func (c *Ctx) rulePushLoops() {
 		if n == 0 {
 			rep.bad("R-APPEND", sp.fn, "anchor", c.p.pos(fn.Pos()), "no header store found")
 		}
+		c.rulePushLoopCoverage(fn, fa, sp.gate == "")
 		if sp.gate == "" {
 			c.rulePolicyCall(fn, fa)
 		}
@@ -310,6 +311,39 @@ func (c *Ctx) rulePolicyCall(fn *ssa.Function, fa *FnAnalysis) {
 			okRej = true
 		} else {
 			why = "after a rejection the loop continues (a later value may still be offered or appended)"
+		}
+	}
+	// (4) no rejection goes unreported: wherever the function returns with the policy's
+	// verdict on the last value consulted being an error, setErr has recorded that error
+	{
+		nRej := 0
+		silent := false
+		for _, rs := range fa.rets {
+			if rs.st.dead {
+				continue
+			}
+			v, known := fa.nonNil(rs.st, pc)
+			if !known || !v {
+				continue
+			}
+			nRej++
+			recorded := false
+			for _, call := range c.findCalls(fn, "(*stack).setErr") {
+				if d, _ := rs.st.get(aDID, c.eng.tt.mk(Term{K: "V", V: call})); d && len(call.Call.Args) == 2 && call.Call.Args[1] == ssa.Value(pc) {
+					recorded = true
+				}
+			}
+			if !recorded {
+				silent = true
+			}
+		}
+		switch {
+		case nRej == 0:
+			rep.bad("R-POLICY", name, "rejection is reported", pos, "no return path on which the policy rejected a value could be identified")
+		case silent:
+			rep.bad("R-POLICY", name, "rejection is reported", pos, "the function can return after the policy rejected a value without setErr having recorded that error (Err() would not report it)")
+		default:
+			rep.ok("R-POLICY", name, "rejection is reported", pos, fmt.Sprintf("on each of the %d return paths that follow a rejection setErr(policy error) was executed", nRej))
 		}
 	}
 	if okRej {
@@ -509,5 +543,110 @@ func (c *Ctx) ruleScanNesting() {
 	} else {
 		sort.Strings(problems)
 		rep.bad("R-SCAN", relName(fn), "scan", pos, strings.Join(uniq(problems), "; "))
+	}
+}
+
+// rulePushLoopCoverage: every offered value gets its turn.  The per-value loop
+// is left only when the counter has run past the last value, when the stack is
+// full (nothing further could be stored) or - with a push policy - when the
+// policy has just rejected a value (which ends the batch by definition).  A
+// value refused by the no-nesting test must not end the batch.
+func (c *Ctx) rulePushLoopCoverage(fn *ssa.Function, fa *FnAnalysis, policy bool) {
+	rep := c.rep
+	pos := c.p.pos(fn.Pos())
+	if len(fa.loopOf) != 1 {
+		rep.bad("R-APPEND", relName(fn), "every value gets its turn", pos, fmt.Sprintf("expected one loop over the offered values, found %d", len(fa.loopOf)))
+		return
+	}
+	var hdr *ssa.BasicBlock
+	for h := range fa.loopOf {
+		hdr = h
+	}
+	blocks := fa.loopOf[hdr]
+	var problems []string
+	iff, _ := hdr.Instrs[len(hdr.Instrs)-1].(*ssa.If)
+	nExit := 0
+	for bi, succs := range fa.edgeOut {
+		if !blocks[bi] {
+			continue
+		}
+		for k, sb := range bi.Succs {
+			if blocks[sb] || k >= len(succs) {
+				continue
+			}
+			for _, s := range succs[k] {
+				if s.dead {
+					continue
+				}
+				nExit++
+				okExit := false
+				if iff != nil && bi == hdr {
+					if v, known := fa.knownTerm(s, aTR, fa.term(s, iff.Cond)); known && !v {
+						okExit = true
+					}
+				}
+				for _, call := range c.findCalls(fn, "stack.isFull") {
+					if v, known := fa.knownTerm(s, aTR, fa.term(s, call)); known && v {
+						if ep, ok := s.cep[call]; ok && ep == s.epoch {
+							okExit = true
+						}
+					}
+				}
+				if policy && !okExit {
+					for _, bb := range fn.Blocks {
+						for _, i2 := range bb.Instrs {
+							call, ok := i2.(*ssa.Call)
+							if !ok || call.Call.IsInvoke() || call.Call.Value != ssa.Value(fn.Params[1]) {
+								continue
+							}
+							if v, known := fa.nonNil(s, call); known && v {
+								okExit = true
+							}
+						}
+					}
+				}
+				if !okExit {
+					problems = append(problems, fmt.Sprintf("the loop over the offered values can be left early (block %d -> %d) although values remain, the stack is not known to be full and nothing was rejected by a policy", bi.Index, sb.Index))
+				}
+			}
+		}
+	}
+	// the counter visits every index: starts at 0 (or -1 for range loops), steps by one
+	{
+		xs := ssa.Value(fn.Params[len(fn.Params)-1])
+		nIdx := 0
+		for b := range blocks {
+			for _, in := range b.Instrs {
+				ia, ok := in.(*ssa.IndexAddr)
+				if !ok || ia.X != xs {
+					continue
+				}
+				nIdx++
+				first, step, ok := c.loopIndex(ia.Index, hdr)
+				isLen := func(v ssa.Value) bool {
+					call, ok := v.(*ssa.Call)
+					if !ok {
+						return false
+					}
+					bi, ok := call.Call.Value.(*ssa.Builtin)
+					return ok && bi.Name() == "len" && call.Call.Args[0] == xs
+				}
+				if !ok || first != 0 || step != 1 || !c.loopBoundIs(hdr, ia.Index, isLen) {
+					problems = append(problems, "the offered values are not visited by an index running 0,1,2,... up to len(x)")
+				}
+			}
+		}
+		if nIdx == 0 {
+			problems = append(problems, "the loop does not index the offered values")
+		}
+	}
+	if nExit == 0 {
+		problems = append(problems, "no loop exit found")
+	}
+	if len(problems) == 0 {
+		rep.ok("R-APPEND", relName(fn), "every value gets its turn", pos, "the loop ends only past the last value, on a full stack or on a policy rejection")
+	} else {
+		sort.Strings(problems)
+		rep.bad("R-APPEND", relName(fn), "every value gets its turn", pos, strings.Join(uniq(problems), "; "))
 	}
 }
